@@ -8,13 +8,14 @@ import numpy
 
 from akext import _lib
 from akext import _mem
-from akext._util import FILENAME, arg_int64, cast_int64, arg_string
+from akext._util import FILENAME, arg_int64, cast_int64, arg_string, no_pickle
 
 
 def _fn(line):
     return FILENAME("index.cpp", line)
 
 
+@no_pickle
 class _Index(object):
     """common implementation; the five concrete classes differ by `_kind`/`_dtype`"""
     __slots__ = ("_h", "__weakref__")
